@@ -32,11 +32,15 @@ EXPLANATION = (
     "pipeline core and no `d.get(k).attr` dereference on a registry from which entries can be removed at run time; R1.8 every "
     "explicit raise reachable in the resolved call graph (depth 4) from a request handler is triaged in a frozen table "
     "(guarded on that route, or reported) - a new one is a violation (may-analysis: reachable, not necessarily raised); "
-    "R1.9 use-then-check: no local is dereferenced on every path before the function's own None/truthiness test of it. "
+    "R1.9 use-then-check: no local is dereferenced on every path before the function's own None/truthiness test of it; "
+    "R1.10 in the resolved call closure (depth 4) of the request handlers and of the per-step hooks (apply_timestep / "
+    "pre_timestep), a single-argument `table.pop(key)` whose key is a string handed in by the caller, or whose table belongs "
+    "to another component (self.parent.x.t / self.software_manager.x.t), is dominated by a membership test of that same "
+    "table (`k in t`, `t.get(k)`, a local bound to it, a helper predicate) or listed in a triage table with its invariant. "
     "NOT decided: that no input whatsoever makes a library call raise (KeyError/IndexError/validation errors on "
     "run-time values) and finiteness of rewards as numbers."
 )
-TECHNIQUE = "static: CFG dominators/exactly-once counts on the step pipeline, return-shape analysis of request handlers over the class hierarchy, signature agreement of overrides"
+TECHNIQUE = "static: CFG dominators/exactly-once counts on the step pipeline, return-shape analysis of request handlers over the class hierarchy, signature agreement of overrides, guarded-pop check in the request/timestep call closure"
 ASSUMPTIONS = ["request handlers are only the functions passed as RequestType(func=...) at the add_request sites",
                "class-hierarchy analysis over-approximates dispatch; unresolved callees are reported as unknown, not as failures"]
 
@@ -591,6 +595,140 @@ def r1_9(ctx: Ctx) -> None:
     ctx.ok("R1.9", "src/primaite::<package>::use-then-check contradictions", "", f"{n_checks} tests of locals inspected, none is preceded on every path by a dereference of the same local")
 
 
+# pops keyed by an identifier whose presence rests on an invariant the analysis can see elsewhere (one reason each)
+POP_TRIAGE: Dict[Tuple[str, str], str] = {
+    ("SoftwareManager.uninstall", "self.node.applications.pop(software.uuid)"):
+        "`software` was fetched from self.software under the `in` guard above; install() files every Application in "
+        "node.applications in the same call that files it in self.software (C13 R13.4 pairing)",
+    ("SoftwareManager.uninstall", "self.node.services.pop(software.uuid)"):
+        "same pairing for services",
+}
+
+
+def _closure(ix, roots: List[FuncInfo], depth: int = 4) -> Dict[int, Tuple[FuncInfo, List[str]]]:
+    from ..inventory import own_nodes
+    from ..purity import resolve_callees
+    seen: Dict[int, Tuple[FuncInfo, List[str]]] = {}
+    work = [(r, 0, [r.short]) for r in roots]
+    while work:
+        f, d, path = work.pop()
+        if id(f.node) in seen:
+            continue
+        seen[id(f.node)] = (f, path)
+        if d >= depth:
+            continue
+        for n, lam in own_nodes(f.node):
+            if isinstance(n, ast.Call):
+                tg, _ = resolve_callees(ix, f, n)
+                for x in tg:
+                    work.append((x, d + 1, path + [x.short]))
+    return seen
+
+
+def r1_10(ctx: Ctx) -> None:
+    """`table.pop(key)` with no default raises KeyError when the key is absent.  In code reached from a request handler or from
+    the per-step hooks that is an exception out of step() unless presence is established first.  Two kinds of key have no
+    local reason to be present: a string handed in by the caller (a request argument travels down unchanged), and any key
+    used on another component's table (self.parent.x.table / self.software_manager.x.table): those must sit behind a
+    membership test of that same table (`k in t`, `t.get(k)`, a helper predicate doing so) or give pop a default."""
+    ix = ctx.ix
+    ctx.rule("R1.10", "in the request-handler and per-step closures a single-argument pop keyed by a caller-supplied string or "
+                      "applied to another component's table is dominated by a membership test of that table (or triaged)")
+    tree = RequestTree(ix)
+    roots: List[FuncInfo] = []
+    for ents in tree.slots.values():
+        for e in ents:
+            if e.target_kind == "handler":
+                encl, node = e.target
+                if isinstance(node, ast.Lambda):
+                    roots.append(FuncInfo(f"{encl.qualname}.<lambda@{node.lineno}>", "<lambda>", node, encl.module, None, encl, []))
+                else:
+                    roots.append(encl)
+    roots += [f for f in ix.functions if f.name in ("apply_timestep", "pre_timestep") and f.path.startswith("src/primaite/simulator/")
+              and not isinstance(f.node, ast.Lambda)]
+    seen = _closure(ix, roots)
+    n = 0
+    done: Set[Tuple[str, str]] = set()
+    for f, path in seen.values():
+        if isinstance(f.node, ast.Lambda):
+            continue
+        str_params = set()
+        for a in f.node.args.args + f.node.args.kwonlyargs:
+            ann = unparse(a.annotation) if a.annotation is not None else ""
+            if a.arg not in ("self", "cls") and ("str" in ann or ann == ""):
+                str_params.add(a.arg)
+        g = None
+        for c in ast.walk(f.node):
+            if not (isinstance(c, ast.Call) and isinstance(c.func, ast.Attribute) and c.func.attr == "pop" and len(c.args) == 1 and not c.keywords):
+                continue
+            table, key = unparse(c.func.value), c.args[0]
+            caller_key = isinstance(key, ast.Name) and key.id in str_params
+            foreign = table.count(".") >= 2
+            if not (caller_key or foreign):
+                continue
+            ident = (f.short, unparse(c))
+            if ident in done:
+                continue
+            done.add(ident)
+            n += 1
+            k = ctx.key(f, f"{unparse(c)[:70]} is guarded")
+            if ident in POP_TRIAGE:
+                ctx.ok("R1.10", k, f.loc(c), POP_TRIAGE[ident])
+                continue
+            g = g or CFG(f.node)
+            ld = LocalDefs(f.node)
+            here = [nd for nd in g.nodes if nd.ast is not None and any(x is c for x in ast.walk(nd.ast)) and nd.kind in ("stmt", "cond")]
+            ktxt = unparse(key)
+
+            def member_edge(e) -> bool:
+                if not (e.label and e.label[0] == "cond"):
+                    return False
+                x, pol = ld.expand(e.label[1]), e.label[2]
+                neg = False
+                while isinstance(x, ast.UnaryOp) and isinstance(x.op, ast.Not):
+                    x, neg = x.operand, not neg
+                want = pol is (not neg)
+                if isinstance(x, ast.Name):
+                    # a local bound to table.get(key) (its other bindings, if any, are falsy constants): truthy => present
+                    vals = [v for v, _ in ld.all_values(x.id) if v is not None]
+                    gets = [v for v in vals if isinstance(v, ast.Call) and isinstance(v.func, ast.Attribute) and v.func.attr == "get"
+                            and unparse(v.func.value) == table and v.args and unparse(v.args[0]) == ktxt]
+                    rest = [v for v in vals if v not in gets]
+                    if gets and all(isinstance(v, ast.Constant) and not v.value for v in rest):
+                        return want
+                    return False
+                if isinstance(x, ast.Compare) and len(x.ops) == 1 and isinstance(x.ops[0], (ast.In, ast.NotIn)) \
+                        and unparse(x.left) == ktxt and unparse(x.comparators[0]) in (table, table + ".keys()"):
+                    return want if isinstance(x.ops[0], ast.In) else not want
+                if isinstance(x, ast.Call) and isinstance(x.func, ast.Attribute) and x.func.attr == "get" and unparse(x.func.value) == table \
+                        and x.args and unparse(x.args[0]) == ktxt:
+                    return want
+                if isinstance(x, ast.Compare) and len(x.ops) == 1 and isinstance(x.left, ast.Call) and isinstance(x.left.func, ast.Attribute) \
+                        and x.left.func.attr == "get" and unparse(x.left.func.value) == table and x.left.args and unparse(x.left.args[0]) == ktxt \
+                        and isinstance(x.comparators[0], ast.Constant) and x.comparators[0].value is None:
+                    return want == isinstance(x.ops[0], (ast.IsNot, ast.NotEq))
+                # helper predicate: self.<h>(<...key...>) whose body tests membership in the same table attribute
+                if isinstance(x, ast.Call) and isinstance(x.func, ast.Attribute) and unparse(x.func.value) == "self" and f.cls is not None \
+                        and any(unparse(a) == ktxt for a in list(x.args) + [kw.value for kw in x.keywords]):
+                    h = ix.find_method(f.cls, x.func.attr)
+                    tattr = table.split(".")[-1]
+                    if h is not None and not isinstance(h.node, ast.Lambda) and any(
+                            isinstance(y, ast.Compare) and isinstance(y.ops[0], ast.In) and unparse(y.comparators[0]).endswith("." + tattr)
+                            for y in ast.walk(h.node)):
+                        return want
+                return False
+
+            p = g.path_avoiding(here, member_edge) if here else None
+            why = "caller-supplied key" if caller_key else "another component's table"
+            ctx.record("R1.10", k, f.loc(c), bool(here) and p is None,
+                       f"{why}: reached only after a membership test of {table}" if p is None else
+                       f"{why}: `{unparse(c)}` can run with the key absent (route {' > '.join(path[-3:])}): KeyError propagates out of "
+                       f"{'apply_request' if 'request' in path[0] or 'lambda' in path[0] else 'the timestep'}, i.e. out of step()",
+                       path_text(p))
+    ctx.floor("R1.10", "unguardable-by-construction pop sites inspected", n, 3)
+
+
+
 def check(ctx: Ctx) -> None:
     r1_9(ctx)
     r1_8(ctx)
@@ -601,3 +739,4 @@ def check(ctx: Ctx) -> None:
     r1_5(ctx)
     r1_6(ctx)
     r1_7(ctx)
+    r1_10(ctx)
